@@ -56,6 +56,18 @@ Ghost == [s |-> Line.s, cnt |-> Line.cnt, a |-> Line.dgA, b |-> Line.dgB, blk |-
 TInit == TW!Init /\ l = 1 /\ bad = <<>> /\ expect = [r \in ThreadsC |-> 0] /\ TLCSet(1, 0) /\ TLCSet(2, <<>>)
 
 TConfig == IsEvent("Config") /\ UNCHANGED <<twvars, bad, expect>>
+\* several executions of the same model concatenated in one trace file: start again from the initial state
+TReset ==
+  /\ IsEvent("Reset")
+  /\ msg' = <<>> /\ hist' = [p \in TW!LpSet |-> <<>>] /\ base' = [p \in TW!LpSet |-> TW!NoGhost] /\ ckpt' = [p \in TW!LpSet |-> <<>>]
+  /\ owner' = [p \in TW!LpSet |-> -1] /\ rb' = [r \in ThreadsC |-> TW!NoRb] /\ cpos' = [p \in TW!LpSet |-> 0]
+  /\ cheld' = [p \in TW!LpSet |-> FALSE] /\ termT' = [p \in TW!LpSet |-> -1] /\ gvtSeen' = [r \in ThreadsC |-> 0]
+  /\ gvtCnt' = [r \in ThreadsC |-> 0] /\ gvtVals' = <<>> /\ finiLp' = [p \in TW!LpSet |-> FALSE] /\ finiQ' = [r \in ThreadsC |-> FALSE]
+  /\ votes' = 0 /\ stopped' = FALSE /\ exited' = [r \in ThreadsC |-> FALSE] /\ hand' = [r \in ThreadsC |-> 0]
+  /\ voted' = [r \in ThreadsC |-> FALSE] /\ maxDecl' = [r \in ThreadsC |-> 0] /\ mustVote' = [r \in ThreadsC |-> FALSE]
+  /\ announced' = FALSE /\ net' = <<>> /\ rx' = [r \in ThreadsC |-> TW!NoRx]
+  /\ lastNm' = [r \in ThreadsC |-> [nm |-> 0, kind |-> "none", id |-> 0, sq |-> 0]] /\ early' = [p \in TW!LpSet |-> {}]
+  /\ expect' = [r \in ThreadsC |-> 0] /\ bad' = <<>>
 
 Skippable == {"BarArrive", "BarLeave", "GvtStart", "GvtInitiate", "TPhase", "NPhase", "DrainStage", "ModelFini",
               "CollPost", "CollDone"}
@@ -219,7 +231,7 @@ TCrash ==
   /\ UNCHANGED <<twvars, expect>>
 
 TNext ==
-  \/ TConfig \/ TSkip \/ TAlloc \/ TLpInit \/ TPush \/ TSend \/ TDrain \/ TExtract \/ TFlag \/ TRbBegin \/ TAntiLocal
+  \/ TConfig \/ TReset \/ TSkip \/ TAlloc \/ TLpInit \/ TPush \/ TSend \/ TDrain \/ TExtract \/ TFlag \/ TRbBegin \/ TAntiLocal
   \/ TUndo \/ TRestore \/ TRbEnd \/ TExec \/ TCkpt \/ TFossil \/ TFree \/ TGvt \/ TTermLp \/ TTermUndo \/ TVote \/ TStop
   \/ TLoopExit \/ TTermCtrl \/ TNetSend \/ TNetRecv \/ TAntiRemote \/ TFreeAtGvt \/ TEarlyStore \/ TEarlyMatch \/ TRAntiMatch \/ TFiniStage \/ TLpFini \/ TEnd \/ THang \/ TCrash
 TSpec == TInit /\ [][TNext]_tvars
